@@ -804,6 +804,8 @@ def _run_paths(c: Ctx, harness: Callable[[Ctx], Any], res: Dict[str, Any], stop_
                 sample = harness(c)
                 c.stats.paths += 1
                 if sample is not None and len(res["samples"]) < 3:
+                    if isinstance(sample, dict) and "choices" in sample:
+                        sample["model"] = c.model()  # makes the sampled path replayable
                     res["samples"].append(_jsonable(sample))
             except PathAbort:
                 c.stats.aborted += 1
